@@ -3,8 +3,8 @@
     ante posting -> bet collection -> blind/straddle posting -> [ per street: dealing -> betting -> bet collection ]
     -> showdown -> hand killing -> chips pushing -> chips pulling -> (hand over)
 
-with these shortcuts: when all but one player have folded the hand goes from bet collection straight to
-chips pushing; when the players are all-in the showdown takes place at once and the remaining streets are
+with these shortcuts: when all but one player have folded (or mucked at the showdown) the hand goes from bet
+collection (from the showdown) straight to chips pushing; when the players are all-in the showdown takes place at once and the remaining streets are
 dealt without betting ("all-in run-out": showdown -> dealing), possibly several times (run-outs).
 """
 
@@ -14,7 +14,7 @@ SUCCESSORS = {
     'blind_or_straddle_posting': {'dealing'},
     'dealing': {'betting'},
     'betting': {'bet_collection'},
-    'showdown': {'dealing', 'hand_killing'},
+    'showdown': {'dealing', 'hand_killing', 'chips_pushing'},
     'hand_killing': {'chips_pushing'},
     'chips_pushing': {'chips_pulling'},
     'chips_pulling': set(),          # the hand is over
@@ -34,4 +34,8 @@ def after_bet_collection(lone_survivor, before_first_street, last_street, all_in
 
 
 def after_showdown(all_in, last_street, lone_survivor):
-    return 'dealing' if (all_in and not last_street and not lone_survivor) else 'hand_killing'
+    """a lone survivor (everybody else mucked) takes the pots at once; an all-in run-out deals the remaining streets; otherwise
+    hands that cannot win are killed"""
+    if lone_survivor:
+        return 'chips_pushing'
+    return 'dealing' if (all_in and not last_street) else 'hand_killing'
